@@ -3,8 +3,9 @@
 # Applies each behaviour-preserving patch to /repo, runs every rule once, expects silence, reverts.
 cd /verif
 if [ -n "$(git -C /repo status --porcelain)" ]; then echo "/repo is not clean"; exit 2; fi
+[ $# -eq 0 ] && set -- /verif/refactors
 for d in "$@"; do
-  for p in $(ls -d $d/*/ | sort -V); do
+  for p in $(ls -d $d/*/ $d 2>/dev/null | sort -Vu); do
     f=$p/patch.diff
     [ -f $f ] || continue
     if ! git -C /repo apply $f 2>/dev/null; then echo "$f: does not apply"; continue; fi
